@@ -350,7 +350,9 @@ def run(ctx):
                 'trans, rhs kind, values).  auto_determine_solver: overrides x availability patterns per stored matrix.  '
                 'Multigrid prolongation R: FE domains of the CG sweep (every nested level) + further rectangular 2-D / 3-D '
                 'domains with nelx != nely != nelz, 1-3 dofs per node, exact against Model/MGInterp.v.  (CG sweep = oracle: '
-                'preconditioners x containers x rhs kinds x trans x initial guess, FE matrices of rectangular domains.)')
+'preconditioners x containers x rhs kinds x trans x initial guess, FE matrices of rectangular domains; interaction '
+                'block = oracle: caller-owned arrays in every layout bit-identical after solve, one rhs object solved for all trans '
+                'modes, cross-mode initial guesses, solver-object histories with matrices modified in place.)')
     ctx.assumptions += ['theorems are over exact arithmetic in an arbitrary star ring; floating-point accuracy of LAPACK/SuperLU is '
                         'validated (1e-9 relative, in exact Q inside Coq against the exact rational solution), not proved',
                         'convergence of CG / multigrid is run-time behaviour (post-condition checked), not proved',
@@ -728,6 +730,10 @@ def run(ctx):
     t_ = time.time()
     cg_sweep(ctx, pym)
     tm['python: cg sweep'] = round(time.time() - t_, 1)
+    # ---- (v) interactions: caller-owned arrays, re-used right-hand-side objects, initial guesses, solver-object histories
+    t_ = time.time()
+    interaction_block(ctx, pym)
+    tm['python: interactions'] = round(time.time() - t_, 1)
     ctx.extra['seconds'] = tm
 
 
@@ -827,6 +833,340 @@ def magnitude_block(ctx, pym):
                                           'op_trans(A) x = b relative to |b| at every magnitude', f'{cls} matrix', replay, got=got)
     ctx.extra['magnitude_cases'] = len(checks)
     return checks, labels
+
+
+# ----------------------------------------------------------------------------- interactions (testing: search_evaluations)
+def _snap(a):
+    """bit-level snapshot of a caller-owned array / sparse matrix"""
+    if a is None:
+        return None
+    if sps.issparse(a):
+        c = a.tocoo()
+        return ('sp', type(a).__name__, a.shape, str(a.dtype), np.asarray(c.row).tobytes(), np.asarray(c.col).tobytes(), np.asarray(c.data).tobytes())
+    return ('nd', a.shape, a.strides, str(a.dtype), a.tobytes())
+
+
+def rhs_layouts(b1, bk):
+    """the same right-hand-side values in every memory layout: (name, array)"""
+    n = b1.shape[0]
+    out = [('1-D', b1.copy())]
+    big = np.zeros(2 * n, dtype=b1.dtype)
+    big[::2] = b1
+    out.append(('1-D strided', big[::2]))
+    out.append(('(n,1) C', np.ascontiguousarray(b1.reshape(n, 1))))
+    out.append(('(n,1) F', np.asfortranarray(b1.reshape(n, 1))))
+    out.append(('(n,1) column of a block', np.asfortranarray(np.stack([b1, 2 * b1], axis=1))[:, :1]))
+    out.append(('(n,k) C', np.ascontiguousarray(bk)))
+    out.append(('(n,k) F', np.asfortranarray(bk)))
+    wide = np.zeros((n, 2 * bk.shape[1]), dtype=bk.dtype)
+    wide[:, ::2] = bk
+    out.append(('(n,k) strided', wide[:, ::2]))
+    return out
+
+
+def interaction_block(ctx, pym):
+    """Scenarios a one-solver-one-call check cannot see (the property's 'for every solver ... every matrix ... every
+    right-hand side / initial guess' clause applied to RE-USED objects):
+    (a) the arrays the caller owns (rhs in every layout, x0, the matrix) are bit-identical after update()/solve(), and the
+        SAME rhs object is solved again for the other trans modes (state solve, then adjoint solve with one load vector);
+    (b) initial guesses: exact solutions of the N system as guess for T / H and vice versa, the solution of another
+        right-hand side, zero, random -- the residual of the RETURNED x is checked against the requested trans;
+    (c) solver-object histories: several update() calls on one solver object with the same matrix object modified in
+        place between them, with fresh objects and objects of equal values, interleaved with solves in all trans modes:
+        every answer must solve the CURRENT matrix (solver-level analogue of C03's history independence)."""
+    S = pym.solvers
+    rng = ctx.rng
+    from pymoto.solvers import auto_determine_solver
+    nint = 0
+
+    def dense_of(A):
+        return A.toarray() if sps.issparse(A) else np.asarray(A)
+
+    def resid(Aref, t, x, bref):
+        n = Aref.shape[0]
+        r = opmat(Aref, t) @ np.asarray(x).reshape(n, -1) - bref.reshape(n, -1)
+        bn = np.linalg.norm(bref.reshape(n, -1), axis=0)
+        return np.linalg.norm(r, axis=0) / np.where(bn == 0, 1.0, bn)
+
+    def solvers_for(cls, cplx, sparse):
+        """(label, constructor taking the matrix, tolerance)"""
+        out = [(lab, (lambda A, c=c: (auto_determine_solver(A) if c is None else c()).update(A) or None), 1e-9)
+               for lab, c in solver_menu(pym, cls, cplx, sparse)]
+        return out
+
+    def build(lab_ctor, A):
+        lab, ctor = lab_ctor
+        s_ = auto_determine_solver(A) if ctor is None else ctor()
+        s_.update(A)
+        return s_
+
+    def cg_menu(sparse):
+        m = [('CG', lambda: S.CG(tol=1e-9, maxit=2000)), ('CG+DampedJacobi', lambda: S.CG(preconditioner=S.DampedJacobi(), tol=1e-9, maxit=2000))]
+        if sparse:
+            m += [('CG+SOR', lambda: S.CG(preconditioner=S.SOR(), tol=1e-9, maxit=2000)), ('CG+ILU', lambda: S.CG(preconditioner=S.ILU(), tol=1e-9, maxit=2000))]
+        return m
+
+    def tol_of(lab):
+        return 1e-7 if lab.startswith('CG') else 1e-9
+
+    def report(call_site, pred, cls, case, **kw):
+        ctx.violation('impl-violates', call_site, pred, cls, case, **kw)
+
+    # ------------------------------------------------------------------ (a) caller-owned arrays, re-used rhs objects
+    mats = [('general', lc.gen_matrix(rng, 'general', 4, False)), ('general', lc.gen_matrix(rng, 'general', 3, True)),
+            ('spd', lc.gen_matrix(rng, 'spd', 4, False)), ('hpd', lc.gen_matrix(rng, 'hpd', 3, True)),
+            ('indef', lc.gen_matrix(rng, 'indef', 3, False)), ('csym', lc.gen_matrix(rng, 'csym', 3, True)),
+            ('diag', lc.gen_matrix(rng, 'diag', 3, False)), ('permuted', lc.gen_matrix(rng, 'permuted', 4, False))]
+    orders = ['TNH', 'HTN', 'NHT']
+    for mi, (cls, A0) in enumerate(mats):
+        cplx = bool(np.iscomplexobj(A0))
+        n = A0.shape[0]
+        for spec in ('dense', 'csc', 'csr'):
+            sparse = spec != 'dense'
+            menu = [(lab, c) for lab, c in solver_menu(pym, cls, cplx, sparse)]
+            if cls in ('spd', 'hpd'):
+                menu += cg_menu(sparse)
+            for lab, ctor in menu:
+                # rhs of the dtype of the factors (what LAPACK can use in place), and a real rhs for a complex matrix
+                for rdt in ([complex] if cplx else [float]) + ([float] if cplx and not sparse else []):
+                    b1 = lc.gen_rhs(rng, n, 'vec', rdt is complex).astype(rdt)
+                    bk = lc.gen_rhs(rng, n, 'blk', rdt is complex).astype(rdt)
+                    for li, (lname, b) in enumerate(rhs_layouts(b1, bk)):
+                        Aown = storage(A0.copy(), spec)
+                        Aref = A0.copy()
+                        a_before = _snap(Aown)
+                        try:
+                            solver = auto_determine_solver(Aown) if ctor is None else ctor()
+                            solver.update(Aown)
+                        except Exception as e:
+                            report(lab.split('(')[0] + '.update', 'factorisation of a matrix of the documented class', f'{cls} matrix',
+                                   dict(solver=lab, A=A0.tolist().__repr__(), storage=spec, error=repr(e)))
+                            break
+                        bref = b.copy()
+                        b_before = _snap(b)
+                        case = dict(solver=lab, storage=spec, cls=cls, A=A0.tolist().__repr__(), rhs_layout=lname, rhs_dtype=str(b.dtype),
+                                    b=bref.tolist().__repr__())
+                        for t in orders[(mi + li) % 3]:
+                            nint += 1
+                            ctx.search_evaluations += 1
+                            ctx.count('interaction:a:rhs ' + lname)
+                            try:
+                                x = solver.solve(b, trans=t)          # the caller's array itself, not a copy
+                            except Exception as e:
+                                report(lab.split('(')[0] + '.solve', 'solve raises for a matrix of the documented class', f'{cls} matrix',
+                                       dict(case, trans=t, order=orders[(mi + li) % 3], error=repr(e)))
+                                break
+                            if _snap(b) != b_before:
+                                report(lab.split('(')[0] + '.solve', 'the caller-owned right-hand side is bit-identical after solve', f'{cls} matrix',
+                                       dict(case, trans=t, order=orders[(mi + li) % 3]), expected=bref.tolist().__repr__()[:600], got=b.tolist().__repr__()[:600])
+                                break
+                            if _snap(Aown) != a_before:
+                                report(lab.split('(')[0] + '.solve', 'the caller-owned matrix is bit-identical after update and solve', f'{cls} matrix',
+                                       dict(case, trans=t))
+                                break
+                            res = resid(Aref, t, x, bref)
+                            if np.asarray(x).shape != bref.shape or not np.all(np.isfinite(x)) or not np.all(res <= 10 * tol_of(lab)):
+                                report(lab.split('(')[0] + '.solve', 'op_trans(A) x = b when the same right-hand-side object is solved for several trans modes',
+                                       f'{cls} matrix', dict(case, trans=t, order=orders[(mi + li) % 3]), got=res.tolist().__repr__())
+                                break
+
+    # ------------------------------------------------------------------ (b) initial guesses
+    for gi, (cls, cplx) in enumerate((('hpd', True), ('spd', False), ('hpd', True))):
+        n = 4 + gi
+        A0 = lc.gen_matrix(rng, cls, n, cplx)
+        for spec in ('dense', 'csc', SPARSE_FORMATS[1 + (ctx.seed + gi) % 6]):
+            sparse = spec != 'dense'
+            A = storage(A0.copy(), spec)
+            menu = cg_menu(sparse) + [(lab, c) for lab, c in solver_menu(pym, cls, cplx, sparse) if not lab.startswith('auto')][:2]
+            for kind in ('vec', 'blk'):
+                b = lc.gen_rhs(rng, n, kind, cplx)
+                b2 = lc.gen_rhs(rng, n, kind, cplx)
+                exact = {t: np.linalg.solve(opmat(A0, t), b.reshape(n, -1)).reshape(b.shape) for t in 'NTH'}
+                guesses = [('exact N', exact['N']), ('exact T', exact['T']), ('exact H', exact['H']),
+                           ('solution of another rhs', np.linalg.solve(A0, b2.reshape(n, -1)).reshape(b.shape)),
+                           ('zero', np.zeros_like(b)), ('random', lc.gen_rhs(rng, n, kind, cplx).reshape(b.shape))]
+                for lab, ctor in menu:
+                    try:
+                        solver = ctor()
+                        solver.update(A)
+                    except Exception as e:
+                        report(lab.split('(')[0].split('+')[0] + '.update', 'set-up succeeds for a Hermitian positive definite matrix', f'{cls} matrix',
+                               dict(solver=lab, A=A0.tolist().__repr__(), storage=spec, error=repr(e)))
+                        continue
+                    for gname, g in guesses:
+                        for t in 'NTH':
+                            nint += 1
+                            ctx.search_evaluations += 1
+                            ctx.count(f'interaction:b:guess {gname} for trans {t}')
+                            g_own, b_own = g.copy(), b.copy()
+                            gs, bs = _snap(g_own), _snap(b_own)
+                            case = dict(solver=lab, storage=spec, cls=cls, A=A0.tolist().__repr__(), b=b.tolist().__repr__(), trans=t,
+                                        guess=gname, x0=g.tolist().__repr__()[:1500])
+                            try:
+                                x = solver.solve(b_own, x0=g_own, trans=t)
+                            except Exception as e:
+                                report(lab.split('+')[0].split('(')[0] + '.solve', 'solve raises for a Hermitian positive definite matrix', f'{cls} matrix', dict(case, error=repr(e)))
+                                continue
+                            if _snap(g_own) != gs or _snap(b_own) != bs:
+                                report(lab.split('+')[0].split('(')[0] + '.solve', 'the caller-owned initial guess and right-hand side are bit-identical after solve',
+                                       f'{cls} matrix', case)
+                            res = resid(A0, t, x, b)
+                            if np.asarray(x).shape != b.shape or not np.all(np.isfinite(x)) or not np.all(res <= 10 * tol_of(lab)):
+                                report(lab.split('+')[0].split('(')[0] + '.solve', 'the RETURNED x solves the requested op_trans system for every initial guess',
+                                       f'{cls} matrix', case, got=res.tolist().__repr__())
+
+    # ------------------------------------------------------------------ (c) solver-object histories
+    def modifications(cls, cplx, n):
+        """in-place modifications that keep the matrix inside the documented class of the solvers of `cls`"""
+        def shift(M):
+            # away from zero along the phase of every diagonal entry: keeps the (permuted) diagonal dominance, the class
+            # (real phases for Hermitian matrices) and the definiteness
+            d = np.diag(M).copy()
+            M[np.arange(n), np.arange(n)] += (3 + rng.randint(0, 3)) * d / np.abs(d)
+        mods = [('diagonal shift', shift),
+                ('scaling', lambda M: M.__imul__(2.0)),
+                ('changed entries', None)]
+        if cls not in ('spd', 'hpd/cg'):
+            mods.append(('changed definiteness (sign flip)', lambda M: M.__imul__(-1.0)))
+        return mods
+
+    def change_entries(M, cls):
+        n = M.shape[0]
+        if n < 2:
+            M[0, 0] += 1
+            return
+        if cls == 'diag':
+            M[0, 0] += 2
+            return
+        d = 1.0
+        if cls in ('lower',):
+            M[1, 0] += d
+        elif cls in ('general', 'permuted'):
+            M[0, 1] += d
+            M[1, 1] += 0.5 if M[1, 1].real >= 0 else -0.5
+        else:                       # symmetric / Hermitian classes stay symmetric / Hermitian; dominance kept by the diagonal
+            M[0, 1] += d
+            M[1, 0] += d
+            for i in (0, 1):
+                M[i, i] += 2 * (1 if M[i, i].real >= 0 else -1)
+
+    hist = [('general', False, False), ('general', True, False), ('spd', False, False), ('hpd', True, False), ('indef', False, False),
+            ('csym', True, False), ('diag', False, False), ('spd', False, True), ('hpd', True, True), ('general', False, True)]
+    for hi, (cls, cplx, sparse) in enumerate(hist):
+        n = 4
+        menu = [(lab, c) for lab, c in solver_menu(pym, cls, cplx, sparse)]
+        if cls in ('spd', 'hpd'):
+            menu += cg_menu(sparse)
+        for lab, ctor in menu:
+            iscg = lab.startswith('CG')
+            A0 = lc.gen_matrix(rng, cls, n, cplx)
+            M = A0.copy()                       # the dense master copy of the CURRENT values
+            Aown = sps.csc_matrix(M) if sparse else M
+            try:
+                solver = auto_determine_solver(Aown) if ctor is None else ctor()
+            except Exception as e:
+                report(lab + '.update', 'construction', f'{cls} matrix', dict(solver=lab, error=repr(e)))
+                continue
+            trail = []
+            mods = modifications('hpd/cg' if iscg else cls, cplx, n)
+            steps = ['first', 'same object modified', 'same object modified', 'fresh copy', 'same object modified', 'equal values new object',
+                     'same object unmodified', 'same object modified']
+            bfix = lc.gen_rhs(rng, n, 'vec', cplx)           # one load vector kept for the whole history
+            for si, step in enumerate(steps):
+                if step == 'same object modified':
+                    mname, f = mods[(si + hi) % len(mods)]
+                    if f is None:
+                        change_entries(M, cls)
+                    else:
+                        f(M)
+                    if sparse:               # write the new values into the SAME sparse object
+                        new = sps.csc_matrix(M)
+                        if new.nnz == Aown.nnz and np.array_equal(new.indices, Aown.indices) and np.array_equal(new.indptr, Aown.indptr):
+                            Aown.data[:] = new.data
+                        else:
+                            Aown = new
+                            mname += ' (pattern changed: new object)'
+                    trail.append(mname)
+                elif step == 'fresh copy':
+                    M = M.copy()
+                    Aown = sps.csc_matrix(M) if sparse else M
+                    trail.append('fresh copy')
+                elif step == 'equal values new object':
+                    M = np.array(M.tolist(), dtype=M.dtype)
+                    Aown = sps.csc_matrix(M) if sparse else M
+                    trail.append('equal values, new object')
+                else:
+                    trail.append(step)
+                cur = M.copy()
+                a_before = _snap(Aown)
+                try:
+                    solver.update(Aown)
+                except Exception as e:
+                    report(lab.split('(')[0].split('+')[0] + '.update', 'update() of a re-used solver object succeeds for a matrix of the documented class',
+                           f'{cls} matrix', dict(solver=lab, history=list(trail), A=cur.tolist().__repr__(), error=repr(e)))
+                    break
+                bad = False
+                for t in ('NTH', 'THN', 'HNT')[si % 3]:
+                    nint += 1
+                    ctx.search_evaluations += 1
+                    ctx.count('interaction:c:' + trail[-1].split(' (')[0])
+                    b = bfix if t != 'N' or si % 2 else lc.gen_rhs(rng, n, 'blk', cplx)
+                    bs, bref = _snap(b), b.copy()
+                    case = dict(solver=lab, storage='csc' if sparse else 'dense', cls=cls, A_first=A0.tolist().__repr__(), history=list(trail),
+                                A_current=cur.tolist().__repr__(), b=bref.tolist().__repr__(), trans=t)
+                    try:
+                        x = solver.solve(b, trans=t)
+                    except Exception as e:
+                        report(lab.split('(')[0].split('+')[0] + '.solve', 'solve of a re-used solver object raises', f'{cls} matrix', dict(case, error=repr(e)))
+                        bad = True
+                        break
+                    res = resid(cur, t, x, bref)
+                    if _snap(b) != bs or _snap(Aown) != a_before:
+                        report(lab.split('(')[0].split('+')[0] + '.solve', 'the caller-owned right-hand side and matrix are bit-identical after update and solve',
+                               f'{cls} matrix', case)
+                        bad = True
+                        break
+                    if np.asarray(x).shape != bref.shape or not np.all(np.isfinite(x)) or not np.all(res <= 10 * tol_of(lab)):
+                        report(lab.split('(')[0].split('+')[0] + '.solve',
+                               'after update() every answer solves the CURRENT matrix (same matrix object modified in place, fresh and equal-valued objects)',
+                               f'{cls} matrix', case, got=res.tolist().__repr__())
+                        bad = True
+                        break
+                if bad:
+                    break
+    # two solver objects sharing one matrix object, one solver object alternating between two matrices
+    for cls, cplx in (('spd', False), ('hpd', True), ('general', False)):
+        A = lc.gen_matrix(rng, cls, 4, cplx)
+        B = lc.gen_matrix(rng, cls, 4, cplx)
+        menu = [(lab, c) for lab, c in solver_menu(pym, cls, cplx, False)]
+        objs = [(lab, auto_determine_solver(A) if c is None else c()) for lab, c in menu]
+        b = lc.gen_rhs(rng, 4, 'vec', cplx)
+        for rnd, Mx in enumerate((A, B, A, A, B)):
+            if rnd == 3:
+                dA = np.diag(A).copy()              # in place (away from zero: keeps the diagonal dominance), then the same object again
+                A[np.arange(4), np.arange(4)] += 2 * dA / np.abs(dA)
+            cur = Mx.copy()
+            for lab, so in (objs if rnd % 2 == 0 else objs[::-1]):
+                so.update(Mx)
+            for lab, so in objs:
+                for t in 'NTH':
+                    nint += 1
+                    ctx.search_evaluations += 1
+                    ctx.count('interaction:c:several solver objects on shared matrix objects')
+                    try:
+                        x = so.solve(b, trans=t)
+                        res = resid(cur, t, x, b)
+                    except Exception as e:
+                        res = np.array([np.inf])
+                    if not np.all(res <= 1e-8):
+                        report(lab.split('(')[0] + '.solve',
+                               'after update() every answer solves the CURRENT matrix (same matrix object modified in place, fresh and equal-valued objects)',
+                               f'{cls} matrix', dict(solver=lab, scenario='solver objects sharing matrix objects A, B, A, A (modified in place), B', round=rnd,
+                                                     A_current=cur.tolist().__repr__(), b=b.tolist().__repr__(), trans=t), got=res.tolist().__repr__())
+    ctx.extra['interaction_runs'] = nint
+    ctx.extra['interaction_note'] = ("interaction block = the property's 'for every solver / matrix / right-hand side / initial guess' clause applied to "
+                                     "re-used solver objects, re-used right-hand-side objects and matrices modified in place (solver-level analogue of "
+                                     "C03's history independence); oracle only (search evaluations)")
 
 
 def load_corpus():
